@@ -55,7 +55,7 @@ PLAN = {
         unit("side", "TestC12", 1000, 6000, replay="TestReplayC12"),
         unit("side", "TestC12Concurrent", 100, 1500, seed_off=400),
         unit("side", "TestC12Listener", 300, 3000, seed_off=900),
-        unit("side", "TestC12Slow", 1, 2, seed_off=970, workers={"quick": 3, "thorough": 8}),
+        unit("side", "TestC12Slow", 1, 2, seed_off=970, workers={"quick": 3, "thorough": 8}, waits=True),
         {"pkg": "side", "test": "FuzzC12", "kind": "fuzz", "fuzztime": {"thorough": "180s"}, "checks": {"quick": 0, "thorough": 0}, "replay": None},
         unit("sys", "TestC12Sys", 3, 20, replay="TestReplayC12Sys", seed_off=950, shrinktime="30s", workers={"quick": 8, "thorough": 16})]},
     "C13": {"level": "fault_enumeration", "units": [
@@ -76,7 +76,7 @@ PLAN = {
         unit("sys", "TestC16Sys", 3, 20, replay="TestReplayC16Sys", seed_off=950, shrinktime="30s", workers={"quick": 8, "thorough": 16})]},
     "C17": {"level": "exploration", "units": [
         unit("disc", "TestC17", 400, 8000, replay="TestReplayC17", race=True, shrinktime="30s"),
-        unit("disc", "TestC17Stall", 1, 2, seed_off=970, workers={"quick": 3, "thorough": 8}, shrinktime="20s")]},
+        unit("disc", "TestC17Stall", 1, 2, seed_off=970, workers={"quick": 3, "thorough": 8}, shrinktime="20s", waits=True)]},
     "C18": {"level": "exploration", "units": [
         unit("k8s", "TestC18Grid", 1, 1, replay="TestReplayC18", rapid=False, workers={"quick": 1, "thorough": 1}),
         unit("k8s", "TestC18List", 500, 5000, seed_off=300),
